@@ -203,7 +203,7 @@ pub fn panic_case(p: &Profile) -> BoxedStrategy<Case> {
     healthy.stepw = StepW { awaitgate: 0, opengate: 0, blockongate: 0, nested_sync: 0, nested_desync: 1, nested_futdesync: 0, awaitfutsync: 0, awaitfutdesync: 0, ..StepW::default() };
     let bystanders = vec(vec(op_strategy(&healthy), 0..=3), 0..=2);
     let phase2 = vec(vec(op_strategy(&healthy), 1..=4), 1..=3);
-    (1u8..=3, 2u8..=4, 0u8..7, bystanders, phase2, sched_strategy(p.sched_bytes), prop::bool::weighted(0.3), vec(0u8..5, 1..=3)).prop_map(|(pool, objects, ctx, mut by, mut ph2, sched, unlock_points, attempts)| {
+    (1u8..=3, 2u8..=4, 0u8..10, bystanders, phase2, sched_strategy(p.sched_bytes), prop::bool::weighted(0.3), vec(0u8..5, 1..=3)).prop_map(|(pool, objects, ctx, mut by, mut ph2, sched, unlock_points, attempts)| {
         // the panicking op and its runner context
         let mut callers: Vec<Vec<Op>> = vec![];
         let panic_body = vec![Step::Touch, Step::Yield, Step::Panic];
@@ -225,7 +225,16 @@ pub fn panic_case(p: &Profile) -> BoxedStrategy<Case> {
             // polling task drains a panicking job
             5 => callers.push(vec![Op::Desync { o: 0, body: panic_body, id: 0 }, Op::FutDesync { o: 0, body: vec![Step::Touch], slot: 0, id: 0 }, Op::Await { slot: 0 }]),
             // future_desync panicking before any suspension
-            _ => callers.push(vec![Op::FutDesync { o: 0, body: vec![Step::Touch, Step::Panic], slot: 0, id: 0 }, Op::Await { slot: 0 }]),
+            6 => callers.push(vec![Op::FutDesync { o: 0, body: vec![Step::Touch, Step::Panic], slot: 0, id: 0 }, Op::Await { slot: 0 }]),
+            // try_sync closure panics (immediate path)
+            7 => callers.push(vec![Op::TrySync { o: 0, body: panic_body, probe: false, id: 0 }]),
+            // the closure of `after` panics once its future has completed (pool thread, or whoever drains the queue)
+            8 => {
+                callers.push(vec![Op::After { o: 0, g: 0, body: vec![Step::Touch, Step::Panic], slot: 0, id: 0 }, Op::DropFut { slot: 0 }]);
+                callers.push(vec![Op::Yield, Op::OpenGate { g: 0 }]);
+            }
+            // a plain job that holds a handle on a healthy object panics: the handle is released while unwinding
+            _ => callers.push(vec![Op::Desync { o: 0, body: vec![Step::NestedDesync { o: 255, body: vec![Step::Touch], id: 0 }, Step::Yield, Step::Panic], id: 0 }]),
         }
         let nhealthy = objects as usize - 1;
         for c in by.iter_mut() {
